@@ -16,6 +16,19 @@ Sub-explorations (all exhaustive products / all words up to a length):
           same, suppset new through fset[k] for all k / fset[k] / loc / iloc, an additional exptset, a further row;
           ro / deterministic: a further (robust) row, a bound, forall() called again on a stated constraint): what
           Y returns must be the program and the optimum of a FRESH build that makes the final declarations only.
+  rhs   : host {ro.Model, directly used gcp.Model, dro.Model} x atom {exp, softplus, pexp, log, plog, exp/log summed
+          over an axis, entropy, pnorm | abs, 1-norm, inf-norm | square, power, norm, sumsqr, quad} x multiplier
+          {k > 1, k < 1, 1} x operand form {k*f <= b, f*k <= b, b >= k*f, -k*f >= -b (mirrored for concave atoms)}
+          x right-hand side {constant ARRAY, python scalar, array + variable, array + 0*variable} x history
+          X, r, Y and X, r, X', r', Y with X.. in {P, D, S_eco} and r a REDUNDANT declaration (looser bound, slack
+          row): every re-formulation returns the program and the optimum of a FRESH build of the final declarations,
+          the optimum equals the closed form (element-wise atoms: sum ln t, sum e^t, sum sqrt t ...), intermediate
+          solves keep the optimum, the user's right-hand side array is bytewise unchanged.
+  soc2  : process-history independence of GCProg.to_socp / soc_solve: for every call c2 = (model, api in {to_socp,
+          soc_solve(eco)}, args in {(), (6), (4,(-30,60)), (4,(-1,.5)), (6,(-1,.5)), (6,(-7,13)), (4,(-7,13)) ...})
+          the reference is the SAME call made as the only call of a FRESH subprocess (program digest, optimum);
+          c2 made alone in the long-lived worker, and c2 made after every c1 of the same alphabet on the same model
+          object / another object of the same model / every other model, must return exactly that.
 """
 import itertools
 import json
@@ -24,6 +37,7 @@ import subprocess
 import sys
 
 from ..ref.c08c18c19_c19models import GENS, VARIANTS, applicable, REDECL, REDECL_CLS, INCR
+from ..ref.c08c18c19_c19models import RHS_ATOMS, RHS_HOSTS, RHS_REDUNDANT, SOC2_MODELS, SOC2_ARGS
 
 PROPERTY = 'C19'
 TIMEOUT = 120.0
@@ -36,13 +50,24 @@ RULE = ('rep: 14 generators (LP, MILP, SOCP, exp-cone; ro box/1-norm/2-norm/poly
         'subprocesses with different hash seeds.  Non-trivial: the history contains at least two steps of which one '
         'formulates or solves again after an earlier one (rep) / the variant array is really a different object '
         'class than the float64 baseline and the program depends on it (arr) / both subprocess digests were '
-        'obtained (proc)')
+        'obtained (proc); rhs: 17 atoms x hosts x (multiplier, operand form, right-hand side kind) combinations x '
+        'histories formulate, redundant declaration, formulate (, redundant declaration, formulate) against a fresh '
+        'build of the final declarations and the closed-form optimum - non-trivial: multiplier != 1 and at least '
+        'two formulations; soc2: every (model, degree/cuts argument tuple) as to_socp and soc_solve, alone and after '
+        'every other call of the alphabet on the same object / same model / other models, against the same call in a '
+        'fresh subprocess - non-trivial: the reference was obtained, soc_solve optimal there and programs of '
+        'different argument tuples really differ')
 ASSUMPTIONS = [
     'standard forms are compared numerically (np.array_equal after mapping -0.0 to 0.0), not bytewise',
     'a non-float64 array is compared with the float64 copy of the same values',
     'objective tolerances: HiGHS/OR-tools/Gurobi LP 1e-6(1+|v|), ECOS 1e-5, Gurobi SOCP 2e-4, soc_solve 1e-3|v|+2e-4',
     'a history is cut at its first violation (steps after a corrupting step are not judged)',
     'rsome raising on a non-read-only variant (e.g. a dtype it does not accept) is "unsupported", not a violation',
+    'rhs: a combination whose FRESH build raises (dro with pexp / plog / summed atoms) is "unsupported"; the closed form '
+    'is held against a history only when the fresh build reproduces it (2e-5 relative); dead columns kept by a '
+    're-formulated ro / dro program (known finding of the redecl family) are not held against this family',
+    'soc2: the fresh-process reference makes the to_socp call on one fresh model and the soc_solve call on another '
+    'fresh model with the same arguments; optima are compared with 1e-5(1+|v|), programs by digest',
 ]
 TRUSTED = ['NumPy array_equal / tobytes', 'hashlib digests', 'ECOS, HiGHS, Gurobi, OR-tools as solvers']
 
@@ -94,10 +119,70 @@ def gen_cases(tier, seed):
             for x in xy:
                 for y in xy:
                     yield {'kind': 'redecl', 'gen': g, 'r': r, 'x': x, 'y': y}
+    yield from _gen_soc2(thorough)
+    yield from _gen_rhs(thorough, seed)
     for n in range(1, L + 1):
         for g, spec in GENS.items():
             for h in itertools.product(ALPHA[spec['cls']], repeat=n):
                 yield {'kind': 'rep', 'gen': g, 'hist': list(h)}
+
+
+RHS_K = ((2, 0.5), (4, 0.25), (2, 0.25), (4, 0.5))       # vetted multiplier palettes (VERIF_SEED % 4), dyadic
+# (multiplier index / 1, operand form, right-hand side kind)
+RHS_COMBOS = ((0, 'L', 'arr'), (0, 'R', 'arr'), (0, 'G', 'arr'), (0, 'N', 'arr'), (1, 'L', 'arr'), (None, 'L', 'arr'),
+              (0, 'L', 'sc'), (1, 'G', 'mix'), (0, 'L', 'aff'), (1, 'N', 'arr'), (1, 'G', 'sc'), (0, 'R', 'mix'))
+RHS_COMBOS_QUICK = 9            # quick tier: the first nine for the exp-cone atoms ...
+RHS_COMBOS_QUICK_LPSOC = ((0, 'L', 'arr'), (0, 'R', 'arr'), (0, 'G', 'arr'), (1, 'N', 'arr'), (0, 'L', 'sc'))   # ... these for lp / soc atoms
+RHS_STEPS = ('P', 'D', 'S')
+
+
+def _rhs_hists(thorough):
+    """Histories X, r, Y (one re-formulation) and X, r, X', r', Y (two): X.. in {P, D, S}, r in the redundant
+    declarations.  thorough: all of them; quick: all nine X, bound, Y; row with X = Y in {P, S}; three doubles."""
+    r1, r2 = RHS_REDUNDANT
+    for x in RHS_STEPS:
+        for y in RHS_STEPS:
+            yield [x, r1, y]
+    for x in RHS_STEPS:
+        for y in RHS_STEPS:
+            if thorough or (x == y and x != 'D'):
+                yield [x, r2, y]
+    for x in RHS_STEPS:
+        for x2 in RHS_STEPS:
+            for y in RHS_STEPS:
+                if thorough or (x, x2, y) in (('S', 'S', 'S'), ('P', 'P', 'P'), ('D', 'S', 'P')):
+                    yield [x, r1, x2, r2, y]
+                    if thorough:
+                        yield [x, r2, x2, r1, y]
+
+
+def _gen_rhs(thorough, seed):
+    ks = RHS_K[seed % len(RHS_K)]
+    hosts = RHS_HOSTS if thorough else ('ro', 'gcp')
+    for host in hosts:
+        for atom in RHS_ATOMS:
+            combos = RHS_COMBOS if thorough else RHS_COMBOS[:RHS_COMBOS_QUICK]
+            if not thorough and RHS_ATOMS[atom][3] != 'exp':
+                combos = RHS_COMBOS_QUICK_LPSOC
+            for ki, form, kind in combos:
+                k = 1 if ki is None else ks[ki]
+                for h in _rhs_hists(thorough):
+                    yield {'kind': 'rhs', 'host': host, 'atom': atom, 'k': k, 'form': form, 'rhs': kind, 'hist': h}
+    if not thorough:        # the dro host in the quick tier: element-wise exp-cone and soc atoms, array right-hand side
+        for atom in ('exp', 'log', 'softplus', 'square', 'abs'):
+            for ki, form, kind in ((0, 'L', 'arr'), (1, 'G', 'arr'), (0, 'N', 'sc')):
+                for h in (['S', 'bound', 'S'], ['P', 'row', 'P'], ['P', 'bound', 'D', 'row', 'S']):
+                    yield {'kind': 'rhs', 'host': 'dro', 'atom': atom, 'k': ks[ki], 'form': form, 'rhs': kind,
+                           'hist': h}
+
+
+def _gen_soc2(thorough):
+    models = SOC2_MODELS if thorough else SOC2_MODELS[:3]
+    args = SOC2_ARGS if thorough else SOC2_ARGS[:7]
+    for mdl in models:
+        for a in args:
+            yield {'kind': 'soc2', 'model': mdl, 'args': a, 'others': list(models), 'alpha': [list(x) for x in args],
+                   'full': thorough}
 
 
 def exhaustive(tier):
@@ -107,7 +192,16 @@ def exhaustive(tier):
 def bounds(tier):
     th = tier == 'thorough'
     return {'generators': len(GENS), 'history_length': 4 if th else 3, 'variants': len(VARIANTS),
-            'named_user_arrays': sum(len(s['arrays']) for s in GENS.values()), 'subprocess_hashseeds': list(HASHSEEDS)}
+            'named_user_arrays': sum(len(s['arrays']) for s in GENS.values()), 'subprocess_hashseeds': list(HASHSEEDS),
+            'rhs_atoms': list(RHS_ATOMS), 'rhs_hosts': list(RHS_HOSTS) if th else ['ro', 'gcp', 'dro (5 atoms)'],
+            'rhs_combinations_per_atom': len(RHS_COMBOS) if th else '%d (exp-cone atoms) / %d (lp, soc atoms)' % (
+                RHS_COMBOS_QUICK, len(RHS_COMBOS_QUICK_LPSOC)),
+            'rhs_multiplier_palettes': [list(k) + [1] for k in RHS_K],
+            'rhs_histories_per_combination': len(list(_rhs_hists(th))), 'rhs_max_formulations': 3,
+            'soc2_models': list(SOC2_MODELS if th else SOC2_MODELS[:3]),
+            'soc2_argument_tuples': [list(a) for a in (SOC2_ARGS if th else SOC2_ARGS[:7])],
+            'soc2_first_call_apis': 'to_socp and soc_solve' if th else
+            'to_socp and soc_solve on the same object, to_socp on other objects'}
 
 
 # ------------------------------------------------------------------------------------------------
@@ -607,8 +701,187 @@ def run_incr(case):
             'outcome': 'incr ok %s splits=%d' % (fl, len(splits))}
 
 
+def _rhs_step(m, step):
+    if step == 'P':
+        return m.do_math(), None
+    if step == 'D':
+        return m.do_math(primal=False), None
+    m.solve(_rs['eco'], display=False)
+    return None, _opt(m, 'eco')
+
+
+def run_rhs(case):
+    """formulate -> redundant declaration -> formulate (-> redundant declaration -> formulate) of a model with the
+    constraint  k * atom(x) <= / >= b  against a fresh build of the final declarations and the closed form."""
+    import numpy as np
+    cm, M = _rs['cm'], _rs['M']
+    spec = {'host': case['host'], 'atom': case['atom'], 'k': case['k'], 'form': case['form'], 'kind': case['rhs']}
+    hist = case['hist']
+    reds = tuple(s for s in hist if s in RHS_REDUNDANT)
+    steps = [s for s in hist if s not in RHS_REDUNDANT]
+    kcls = 'k=1' if case['k'] == 1 else ('k>1' if case['k'] > 1 else 'k<1')
+    tag = 'rhs|%s|%s|%s|form %s|rhs %s' % (case['host'], case['atom'], kcls, case['form'], case['rhs'])
+    ops = 9 + len(hist)
+    key = ('rhs', json.dumps(spec, sort_keys=True), reds)
+    if key not in _ref:
+        ref = {}
+        try:
+            m1, _ = M.rhs_build(spec, reds)
+            ref['P'] = cm.snapshot(m1.do_math())
+            m2, _ = M.rhs_build(spec, reds)
+            ref['D'] = cm.snapshot(m2.do_math(primal=False))
+            m3, _ = M.rhs_build(spec, reds)
+            _, (ok, v) = _rhs_step(m3, 'S')
+            ref['obj'] = v if ok else None
+        except Exception as ex:  # noqa
+            ref = {'raises': '%s: %s' % (type(ex).__name__, str(ex)[:80])}
+        _ref[key] = ref
+    ref = _ref[key]
+    if 'raises' in ref:
+        return {'status': 'unsupported', 'ops': ops, 'outcome': 'rhs %s %s: a fresh build raises too' % (
+            case['host'], case['atom']), 'detail': ref['raises']}
+    cf = M.rhs_closed_form(case['atom'], case['rhs'])
+    # the closed form is held against the history only when the fresh build reproduces it (what an atom MEANS is
+    # the business of other properties)
+    cf_ok = cf is not None and ref['obj'] is not None and abs(ref['obj'] - cf) <= 2e-5 * (1 + abs(cf))
+    rng0 = _rng_state()
+    m, h = M.rhs_build(spec)
+    fp = None if h['b'] is None else M.fingerprint(h['b'])
+    nform = 0
+    f = res = None
+    step = None
+    try:
+        for s in hist:
+            if s in RHS_REDUNDANT:
+                M.rhs_apply(h, s)
+                continue
+            step = s
+            f, res = _rhs_step(m, s)
+            nform += 1
+            if s == 'S' and nform < len(steps):
+                ok, v = res
+                # an intermediate solve: the redundant declarations made so far do not move the optimum
+                if ok and ref['obj'] is not None and abs(v - ref['obj']) > 2e-5 * (1 + abs(v)):
+                    return {'status': 'violation', 'ops': ops,
+                            'sig': '%s|formulation %d (S): optimum differs from the fresh build' % (tag, nform),
+                            'detail': 'history %s: %.9g vs fresh %.9g' % (hist, v, ref['obj'])}
+    except Exception as ex:  # noqa
+        return {'status': 'violation', 'ops': ops, 'sig': '%s|formulation %d (%s) raises %s' % (
+            tag, nform + 1, step, type(ex).__name__), 'detail': 'history %s: %s' % (hist, str(ex)[:160])}
+    if _rng_state() != rng0:
+        return {'status': 'violation', 'ops': ops, 'sig': tag + '|global RNG state consumed', 'detail': ''}
+    if fp is not None and M.fingerprint(h['b']) != fp:
+        return {'status': 'violation', 'ops': ops, 'sig': tag + '|user right-hand side array modified', 'detail': ''}
+    where = 're-formulation %d (%s)' % (nform - 1, steps[-1])
+    if steps[-1] == 'S':
+        ok, v = res
+        if ok and ref['obj'] is not None and abs(v - ref['obj']) > 2e-5 * (1 + abs(v)):
+            return {'status': 'violation', 'ops': ops, 'sig': '%s|%s: optimum differs from the fresh build' % (tag, where),
+                    'detail': 'history %s: %.9g vs fresh %.9g (closed form %s)' % (hist, v, ref['obj'], cf)}
+        if ok and cf_ok and abs(v - cf) > 5e-5 * (1 + abs(cf)):
+            return {'status': 'violation', 'ops': ops, 'sig': '%s|%s: optimum differs from the closed form' % (tag, where),
+                    'detail': 'history %s: %.9g vs %.9g' % (hist, v, cf)}
+        got, which = cm.snapshot(m.do_math()), 'P'
+    else:
+        got, which = cm.snapshot(f), steps[-1]
+    d = cm.snap_diff(ref[which], got)
+    if d:
+        gl, dead = _live_columns(got)
+        fl, dead_f = _live_columns(ref[which])
+        if not cm.snap_diff(fl, gl):
+            # the known growth of re-formulated ro / dro programs (dead multiplier columns), not this family's subject
+            return {'status': 'pass', 'ops': ops, 'nontrivial': case['k'] != 1, 'states': nform, 'validated': 1,
+                    'outcome': 'rhs ok (live part; %d dead columns kept) %s' % (dead - dead_f, case['host'])}
+        return {'status': 'violation', 'ops': ops,
+                'sig': '%s|%s: %s differs from the fresh build:%s' % (tag, where, which, cm.snap_field(d)),
+                'detail': 'history %s: %s' % (hist, d)}
+    return {'status': 'pass', 'ops': ops, 'nontrivial': case['k'] != 1 and nform >= 2, 'states': nform,
+            'validated': 1 + int(cf_ok and steps[-1] == 'S'),
+            'outcome': 'rhs ok %s %s%s' % (case['host'], RHS_ATOMS[case['atom']][3],
+                                           ' +closed form' if (cf_ok and steps[-1] == 'S') else '')}
+
+
+def run_soc2(case):
+    """Every call c2 = to_socp / soc_solve (model, degree, cuts) made AFTER every other call c1 (same model object,
+    another object of the same model, other models; every (degree, cuts) of the alphabet) returns what the same call
+    returns as the only call of a fresh process."""
+    M = _rs['M']
+    mdl, args = case['model'], case['args']
+    targs = '(%s)' % ','.join(str(a) for a in args)
+    solo, err = _spawn({'kind': 'soc2', 'model': mdl, 'args': args}, HASHSEEDS[0])
+    if solo is None:
+        return {'status': 'vacuous', 'ops': 4, 'outcome': 'soc2: subprocess failed', 'detail': err}
+    ops = 4
+    pairs = 0
+    differing = 0
+    alpha = case['alpha']
+
+    def norm(a):
+        a = list(a) + [4, [-30, 60]][len(a):]
+        return (a[0], tuple(a[1]))
+
+    def check(api2, got, how, c1):
+        if api2 == 'T':
+            if got != solo['T']:
+                return 'program differs from the same call in a fresh process'
+        else:
+            want = solo['Q']
+            if (got is None) != (want is None):
+                return 'soc_solve status differs from the same call in a fresh process'
+            if got is not None and abs(got - want) > 1e-5 * (1 + abs(want)):
+                return 'soc_solve optimum differs from the same call in a fresh process'
+        return ''
+
+    # ---- the call alone on a fresh model in THIS (long-lived) worker process
+    for api2 in ('T', 'Q'):
+        try:
+            got = M.soc2_call(M.soc2_model(mdl), api2, args)
+        except Exception as ex:  # noqa
+            return {'status': 'violation', 'ops': ops, 'sig': 'soc2|%s|%s%s raises %s in a long-lived process' % (
+                mdl, api2, targs, type(ex).__name__), 'detail': str(ex)[:160]}
+        bad = check(api2, got, 'alone', None)
+        if bad:
+            return {'status': 'violation', 'ops': ops,
+                    'sig': 'soc2|%s|%s|call alone in a long-lived process: %s' % (mdl, api2, bad),
+                    'detail': 'args %s: %s vs fresh process %s' % (targs, got, solo[api2])}
+    for api2 in ('T', 'Q'):
+        for other in ['<same object>', '<same model>'] + [o for o in case['others'] if o != mdl]:
+            apis1 = ('T', 'Q') if (other == '<same object>' or case['full']) else ('T',)
+            for api1 in apis1:
+                for a1 in alpha:
+                    m2 = M.soc2_model(mdl)
+                    m1 = m2 if other == '<same object>' else M.soc2_model(mdl if other == '<same model>' else other)
+                    ops += 4
+                    pairs += 1
+                    try:
+                        r1 = M.soc2_call(m1, api1, a1)
+                        got = M.soc2_call(m2, api2, args)
+                    except Exception as ex:  # noqa
+                        return {'status': 'violation', 'ops': ops, 'sig': 'soc2|%s|%s after %s on %s raises %s' % (
+                            mdl, api2, api1, other, type(ex).__name__), 'detail': '%s then %s: %s' % (a1, args,
+                                                                                                     str(ex)[:120])}
+                    (d1, c1), (d2, c2) = norm(a1), norm(args)
+                    rel = '%s degree, %s cuts' % ('same' if d1 == d2 else 'other', 'same' if c1 == c2 else 'other')
+                    if api1 == api2 == 'T' and other in ('<same object>', '<same model>') and r1 != got:
+                        differing += 1
+                    bad = check(api2, got, other, a1)
+                    if bad:
+                        return {'status': 'violation', 'ops': ops,
+                                'sig': 'soc2|%s|%s after %s on %s with %s: %s' % (
+                                    mdl, api2, api1, other if other.startswith('<') else 'another model', rel, bad),
+                                'detail': 'first %s%s on %s, then %s%s: %s vs fresh process %s' % (
+                                    api1, a1, other, api2, args, got, solo[api2])}
+    return {'status': 'pass', 'ops': ops, 'nontrivial': differing > 0 and solo['Q'] is not None, 'states': pairs,
+            'transitions': 2 * pairs, 'validated': pairs,
+            'outcome': 'soc2 ok %s%s' % (mdl, '' if solo['Q'] is not None else ' [soc_solve not optimal]')}
+
+
 def run_case(case):
     k = case['kind']
+    if k == 'rhs':
+        return run_rhs(case)
+    if k == 'soc2':
+        return run_soc2(case)
     if k == 'incr':
         return run_incr(case)
     if k == 'redecl':
